@@ -37,15 +37,16 @@ func VNewClient(zkc zk.Client, fn VRegionClientFn, opts ...Option) Client {
 
 // VNewAdminClient builds an admin client with an injected ZooKeeper client.
 func VNewAdminClient(zkc zk.Client, fn VRegionClientFn, opts ...Option) AdminClient {
-	c := newClient("sim", opts...)
-	c.clientType = region.MasterClient
-	c.adminRegionInfo = region.NewInfo(0, nil, nil, []byte("master"), nil, nil)
+	c := newAdminClient("sim", opts...).(*client)
 	c.zkClient = zkc
 	if fn != nil {
 		c.newRegionClientFn = fn
 	}
 	return c
 }
+
+// VCloseAdmin closes an admin client.
+func VCloseAdmin(a AdminClient) { a.(*client).Close() }
 
 // VRegionState describes one cached region for oracles.
 type VRegionState struct {
